@@ -15,6 +15,8 @@ macro_rules! push_unchecked {
     ($buf:ident <- $bytes:expr) => {
         {
             let (buf_len, bytes_len) = ($buf.len(), $bytes.len());
+            #[cfg(ohkami_verif)]
+            assert!($buf.capacity() - buf_len >= bytes_len, "ohkami_verif: push_unchecked past capacity");
             std::ptr::copy_nonoverlapping(
                 $bytes.as_ptr(),
                 $buf.as_mut_ptr().add(buf_len),
@@ -87,6 +89,8 @@ pub use ohkami_lib::stream::{self, Stream, StreamExt};
 /// # ;
 /// ```
 #[inline] pub fn unix_timestamp() -> u64 {
+    #[cfg(ohkami_verif)]
+    match __verif_clock__::FROZEN.load(std::sync::atomic::Ordering::SeqCst) {0 => (), t => return t}
     std::time::SystemTime::now()
         .duration_since(std::time::UNIX_EPOCH)
         .unwrap()
@@ -190,3 +194,11 @@ pub const IP_0000: std::net::IpAddr = std::net::IpAddr::V4(std::net::Ipv4Addr::n
 
 #[cfg(feature="rt_glommio")]
 pub use num_cpus;
+
+#[cfg(ohkami_verif)]
+#[doc(hidden)]
+/// verification hook (H4): a non-zero value freezes `unix_timestamp`
+pub mod __verif_clock__ {
+    pub static FROZEN: std::sync::atomic::AtomicU64 = std::sync::atomic::AtomicU64::new(0);
+    pub fn freeze(unix_secs: u64) {FROZEN.store(unix_secs, std::sync::atomic::Ordering::SeqCst)}
+}
